@@ -227,6 +227,11 @@ def score_cover(fam, vecs_asg, per_score):
 
 
 def blocks(tier):
+    return _blocks(tier) + [spaces.interaction_block(fam, tier, twin=twin, n=spaces.INTERACTION_ROWS[tier][fam] // 3)
+                            for fam, twin in (("2", None), ("3.0", "3.1"), ("4.0", None))]
+
+
+def _blocks(tier):
     if tier == "thorough":
         return spaces.v2_blocks("quick") + spaces.v3_blocks("quick") + \
             spaces.v4_blocks("quick", "short") + spaces.v4_blocks("quick", "override", ("mid", "mid"))
